@@ -88,6 +88,11 @@ class Prog:
         self.scopes = {}                # (file,name) -> {"prefix": [("lit", s)|("var", name)], "ops": [(opname, Ty)]}
         self.genopts = ""               # extra `-gen go:` options for this program (e.g. "slim")
         self.defaults = {}              # (file,name) -> {field id: value tree}: IDL default values (`= 5`)
+        self.synth = {}                 # (file, "<Svc>_<method>_args|_result") -> (kind, fields): for oracles only
+
+    def sdef(self, key):
+        """(kind, fields) of a struct-like, or of a synthetic args/result struct registered in self.synth."""
+        return self.structs[key] if key in self.structs else self.synth[key]
 
     def dflt(self, key, fid):
         """the IDL default of field `fid` of struct-like `key` (None = none)."""
@@ -96,7 +101,7 @@ class Prog:
     def cmp_dflt(self, key, fid):
         """the default that the emitted IsSet<F>() compares with: the field is optional (or a union's) and its
         default is of base / enum / string / binary type (a NON-pointer Go field); None otherwise."""
-        kind, fields = self.structs[key]
+        kind, fields = self.sdef(key)
         dv = self.dflt(key, fid)
         if dv is None or dv[0] not in "bngq": return None
         for (i, req, _, _) in fields:
@@ -192,15 +197,32 @@ class Prog:
 
 WORDS = ["Alpha", "Beta", "Gamma", "Delta", "Omega", "Sigma", "Kappa", "Theta", "Zeta", "Iota", "Lambda", "Rho"]
 
-def gen_prog(r, pid, services=False, scopes=False, defaults=True):
+def gen_prog(r, pid, services=False, scopes=False, defaults=True, collide=True):
     p = Prog(pid)
     nfiles = r.pick([1, 1, 2, 2, 3])
     files = ["p%di%d" % (pid, i) for i in range(nfiles - 1)] + ["p%dmain" % pid]
     p.files = files
     counter = [0]
+    used = {}                       # file -> bare names declared in it (any kind)
+    hot = set()                     # bare names declared in more than one file
     def fresh(prefix):
+        # NAME COLLISIONS ACROSS FILES: a bare name is relative to its file. About a third of the declarations
+        # of a later file reuse a name that ANOTHER file of the program declares — as whatever kind that was
+        # (typedef of any width / enum / struct / union / exception / service): bare references inside a file
+        # mean that file's declaration, the including file refers to the other one qualified.
+        mine = used.setdefault(f, set())
+        if collide and prefix != "Sc" and r.chance(35):
+            others = sorted({n for ff, ns in used.items() if ff != f for n in ns if not n.startswith("Sc")} - mine)
+            if others:
+                # prefer names that are (or are about to be) a typedef on one side: the meaning then differs in width / kind
+                tds = [n for n in others if any(nn == n for (_, nn) in p.typedefs)]
+                n = r.pick(tds) if tds and (prefix != "Td" or r.chance(50)) and r.chance(70) else r.pick(others)
+                mine.add(n); hot.add(n); Stat("name-collisions-across-files")
+                return n
         counter[0] += 1
-        return "%s%s%d" % (prefix, r.pick(WORDS), counter[0])
+        n = "%s%s%d" % (prefix, r.pick(WORDS), counter[0])
+        mine.add(n)
+        return n
     for fi, f in enumerate(files):
         p.order[f] = []
         p.includes[f] = files[:fi] if f == files[-1] else (files[:fi] if r.chance(50) else [])
@@ -232,6 +254,9 @@ def gen_prog(r, pid, services=False, scopes=False, defaults=True):
                 return Ty(k, alias="i8" if (k == "y" and r.chance(40)) else None)   # `i8` is Thrift's other spelling of `byte`
             if c < 6:
                 pool = named_pool(allow_named)
+                # prefer LOCAL names that another file declares too (bare reference to a colliding name)
+                hotp = [t for t in pool if t.file == f and t.name in hot]
+                if hotp and r.chance(60): return r.pick(hotp)
                 if pool: return r.pick(pool)
                 return Ty(r.pick(list(BASE.values())))
             if c < 8: return Ty("L", gen_ty(depth - 1, allow_named))
@@ -601,7 +626,7 @@ def canon_dump(p, t, v):
     if t.k == "Z": return "[" + "".join(sorted(canon_dump(p, t.a, i) for i in x)) + "]"
     if t.k == "M": return "{" + "".join(sorted(canon_dump(p, t.a, a) + canon_dump(p, t.b, b) for a, b in x)) + "}"
     if t.k == "S":
-        kind, fields = p.structs[(t.file, t.name)]
+        kind, fields = p.sdef((t.file, t.name))
         ft = {i: ty for (i, _, _, ty) in fields}
         key = (t.file, t.name)
         # a non-pointer optional field holding its default is UNSET (DESIGN §7 C02, value domain)
@@ -622,7 +647,7 @@ def tree(p, t, v):
     if t.k == "Z": return "ST(%d){%s}" % (p.wire(t.a), ",".join(sorted(tree(p, t.a, i) for i in x)))
     if t.k == "M": return "MP(%d,%d){%s}" % (p.wire(t.a), p.wire(t.b), ",".join(sorted(tree(p, t.a, a) + "=" + tree(p, t.b, b) for a, b in x)))
     if t.k == "S":
-        kind, fields = p.structs[(t.file, t.name)]
+        kind, fields = p.sdef((t.file, t.name))
         parts = []
         for (i, req, fn, ty) in sorted(fields):
             # optional iff set; set = IsSet<F>(): a non-pointer optional field holding its default is unset
@@ -647,7 +672,7 @@ def events(r, p, t, v, extra_unknown=False, drop=None, top=False):
     if t.k == "M":
         return ["MB:%d:%d:%d" % (p.wire(t.a), p.wire(t.b), len(x))] + [e for a, b in r.shuffle(x) for e in events(r, p, t.a, a) + events(r, p, t.b, b)] + ["ME"]
     if t.k == "S":
-        kind, fields = p.structs[(t.file, t.name)]
+        kind, fields = p.sdef((t.file, t.name))
         ids = {i for (i, _, _, _) in fields}
         out = ["SB:" + t.name]
         fl = [f for f in fields if f[0] in x and not (top and f[0] == drop)]
